@@ -1,6 +1,7 @@
 //! `vh` — correspondence harness: runs the real rumqttc / rumqttd code in-process on
 //! generated inputs and prints one line per operation (`<op tokens> => <observed output>`),
 //! which the Lean driver `mdriver` replays on the model.
+mod clog;
 mod router;
 mod routergen;
 mod topic;
@@ -17,6 +18,7 @@ fn main() {
     match args[1].as_str() {
         "topic" => topic::run(&opts),
         "router" => router::run(&opts),
+        "clog" => clog::run(&opts),
         x => {
             eprintln!("unknown sub-command {x}");
             std::process::exit(2);
